@@ -184,7 +184,7 @@ static void stage_readers(struct mcs_stats *tot)
 /* ------------------------------------------------------------------ independent topologies */
 enum { H_INIT_DESTROY, H_SYNTHETIC, H_MODIFY_EXPORT, H_XML, H_DIFF, H_ANNOTATE, H_NHIST };
 static const char *HN[H_NHIST] = { "init;destroy", "init;synthetic;load;export-synthetic;destroy", "init;synthetic;load;insert-misc;restrict;refresh;export-xml;destroy", "init;xmlbuffer;load;distances;export-xml;destroy",
-  "init;synthetic;load;dup;insert-misc;diff-build(too complex);diff-export(fails);dup;change-info;diff-build;diff-export;diff-load;diff-apply;destroy x3",
+  "init;synthetic;load;dup;add-info;restrict;diff-build(too complex);diff-export(fails);dup;change-info;diff-build;diff-export;diff-load;diff-apply;destroy x3",
   "init;synthetic;load;memattr;cpukind;distances+group;allow;dup;export-xml;destroy x2" };
 struct ind { int hist[MCS_MAXT]; struct sb dig[MCS_MAXT]; char *ref[H_NHIST]; char *xml; int xmllen; int nthreads; };
 
@@ -199,7 +199,9 @@ static void history(int h, struct sb *d, const struct ind *in)
     hwloc_obj_add_info(hwloc_get_root_obj(t), "c17", "one");
     if (hwloc_topology_dup(&t2, t) < 0) sb_puts(d, "dup-failed");
     else {
-      hwloc_topology_insert_misc_object(t2, hwloc_get_root_obj(t2), "c17");
+      /* an added info pair and a removed PU: not expressible, the diff is one TOO_COMPLEX entry */
+      hwloc_obj_add_info(hwloc_get_root_obj(t2), "c17extra", "x");
+      { hwloc_bitmap_t keep = hwloc_bitmap_alloc(); hwloc_bitmap_set_range(keep, 0, 2); hwloc_topology_restrict(t2, keep, 0); hwloc_bitmap_free(keep); }
       int rc = hwloc_topology_diff_build(t, t2, 0, &diff); sb_printf(d, "build=%d;", rc);
       rc = hwloc_topology_diff_export_xmlbuffer(diff, "ref", &x, &l); sb_printf(d, "export-too-complex=%d;", rc);
       if (rc == 0) free(x);
@@ -275,7 +277,7 @@ static void stage_independent(struct mcs_stats *tot)
   { char path[600]; snprintf(path, sizeof(path), "%s/harness/fixtures/annot.xml", univ_verif()); in.xml = univ_read_file(path, &in.xmllen); in.xmllen++; }
   for (int i = 0; i < T; i++) sb_init(&in.dig[i]);
   /* reference digests from the pristine state of the library, which is then restored */
-  for (int h = 0; h < H_NHIST; h++) { struct sb d; sb_init(&d); history(h, &d, &in); in.ref[h] = strdup(d.s ? d.s : ""); sb_free(&d); }
+  for (int h = 0; h < H_NHIST; h++) { struct sb d; sb_init(&d); history(h, &d, &in); in.ref[h] = strdup(d.s ? d.s : ""); sb_free(&d); if (MC.part == 0) mc_note("single-threaded digest of [%s] starts with: %.160s", HN[h], in.ref[h]); }
   mcs_readonly_clear();
   uint64_t idx = 0; int h[MCS_MAXT] = {0};
   for (h[0] = 0; h[0] < H_NHIST; h[0]++) for (h[1] = h[0]; h[1] < H_NHIST; h[1]++) for (h[2] = (T > 2 ? h[1] : 0); h[2] < (T > 2 ? H_NHIST : 1); h[2]++, idx++) {
